@@ -20,9 +20,10 @@ META = {
              "(a) model vs the real inference rules and reference semantics vs the real operators on generated cases; (b) for ALL "
              "operators offering inference (deserialised by the real ONNX registry): infer, instantiate under 8 assignments (0, 1, "
              "negatives), execute, and check every claim with the Coq evaluator -- the only coverage (a test) for operators without a "
-             "model. Findings: 7 repaired by fix commits (Where, reductions, Slice, Squeeze, executor div/pow), 6 recorded as known "
-             "(F70 Broadcast(0,1), F73 Range, F75 Slice, F76 SkipLayerNormalization, F78 Reshape: pinned by unit tests or owned by C11; "
-             "F5 until C11's fix is on main) and reported as KNOWN-FINDING only for instantiations inside the recorded class."),
+             "model. Findings: 6 repaired by fix commits of this group (Where, reductions, Slice, Squeeze, executor div and pow), F5 (Equal "
+             "via SymExpr::range) repaired by C11's fix, 5 recorded as known (F70 Broadcast(0,1) evaluates to max, F73 symbolic Range "
+             "length, F75 symbolic Slice size, F76 SkipLayerNormalization placeholders, F78 Reshape with symbolic 0/-1: pinned by unit "
+             "tests or owned by C11's model) and reported as KNOWN-FINDING only for instantiations inside the recorded class."),
     "note": ("Trusted: Coq kernel; the correspondence sample (a test); the hook and harness; exec_ref (tied to the kernels only by the "
              "sample). Consistency hypotheses: input expressions evaluate without i32 overflow, positive symbols >= 0, Broadcast "
              "operands compatible; conclusions use release-build i32 evaluation; expressions with SymbolGen symbols make no claim. "
@@ -97,8 +98,8 @@ def main(ctx):
     ctx.rule = ("per case: one operator (deserialized by the real ONNX registry) + symbolic inputs (scalars/vectors of expressions "
                 "over <=4 symbols incl. negations, sums, products, i32 extremes; shapes with fixed dims 0..5, positive symbols, "
                 "n+1, 2*n; unknown tensors; omitted optional inputs) + attributes; 2/3 of the cases target the modelled operators, "
-                "1/3 the table of all other operators with inference; each case is instantiated under 10 assignments (all 0, all 1, "
-                "all 2, all 3, mixed 0..5, negatives for unconstrained symbols) and the real operator is executed on concrete "
+                "1/3 the table of all other operators with inference; each case is instantiated under 7 assignments (all 0, all 1, "
+                "all 2, two mixed 0..5, two with negatives for unconstrained symbols) and the real operator is executed on concrete "
                 "tensors; a case is non-trivial when the operator offers inference")
     ctx.trusted += ["rten::verif::shapeinfer hook (operator construction through OnnxOpRegistry::read_op, Operator::as_infer_shapes, "
                     "Operator::run) and the harness's concrete-tensor construction",
@@ -115,7 +116,7 @@ def main(ctx):
     if not ok:
         raise vf.CheckerBroken("model does not compile: " + out[-800:])
     bindir = ctx.harness(GROUP, profile="release", bins=["c10"])
-    cases = ctx.gen_exec(bindir, "c10", ctx.n(900, 20000), inputs=ctx.replay_inputs())
+    cases = ctx.gen_exec(bindir, "c10", ctx.n(700, 6000), inputs=ctx.replay_inputs())
     bad = [c for c in cases if c["tag"].startswith(("trivial-loadfail", "trivial-harness-panic"))]
     if bad and not ctx.replay_path:
         raise vf.CheckerBroken("harness could not build %d case(s), e.g. %s" % (len(bad), bad[0]["input"][:200]))
